@@ -40,6 +40,10 @@ class Socket(base_socket.BaseSocket):
                                 self.sid, packet_name,
                                 pkt.data if not isinstance(pkt.data, bytes)
                                 else '<binary>')
+        if self.closing or self.closed:
+            # the session is ending (its disconnect handler may still be
+            # running), nothing the client sends is acted on anymore
+            return
         if pkt.packet_type == packet.PONG:
             self.schedule_ping()
         elif pkt.packet_type == packet.MESSAGE:
